@@ -59,12 +59,19 @@ class default_recursion:
         while f is not None:
             depth += 1
             f = f.f_back
-        sys.setrecursionlimit(1000 + depth)
+        self.mine = 1000 + depth
+        sys.setrecursionlimit(self.mine)
         return self
 
     def __exit__(self, *a):
+        now = sys.getrecursionlimit()
+        if now != self.mine:
+            INTERPRETER_LEAKS.append(("recursionlimit", self.mine, now))   # the code under test left a process-wide setting changed
         sys.setrecursionlimit(self.old)
         return False
+
+
+INTERPRETER_LEAKS: list = []
 
 
 def load_real(repo="/repo"):
